@@ -326,6 +326,28 @@ var shapes = []shape{
 	{"unicode-ident", func(n int) []byte { return []byte(rep("é", n)) }},
 	{"nul-bytes", func(n int) []byte { return []byte(rep("\x00", n)) }},
 	{"spread-chain", func(n int) []byte { return []byte("f(" + rep("a...", n) + ")") }},
+	{"many-identifiers", func(n int) []byte { return []byte(rep("ab ", n)) }},
+	{"ident-with-digits", func(n int) []byte { return []byte("a" + rep("1b2", n)) }},
+	{"separated-numbers", func(n int) []byte { return []byte("1_0" + rep("+1_0", n)) }},
+	{"unicode-escape-string", func(n int) []byte { return []byte("'" + rep("\\u00e9", n) + "'") }},
+	{"nested-array-calls", func(n int) []byte {
+		k := n / 4
+		return []byte(strings.Repeat("f([", k) + "a" + strings.Repeat("])", k))
+	}},
+	{"spaces-run", func(n int) []byte { return []byte("a" + rep(" ", n) + "+ b") }},
+	{"newline-run", func(n int) []byte { return []byte("a" + rep("\r\n", n) + "+ b") }},
+	{"selector-call-chain", func(n int) []byte { return []byte("a" + rep(".b()", n)) }},
+	{"assert-selector-chain", func(n int) []byte { return []byte("a" + rep("!.b", n)) }},
+	{"nullish-chain", func(n int) []byte { return []byte("a" + rep("??a", n)) }},
+	{"strict-eq-chain", func(n int) []byte { return []byte("a" + rep("!==a===a", n)) }},
+	{"long-exponent", func(n int) []byte { return []byte("1e" + rep("9", n)) }},
+	{"long-fraction", func(n int) []byte { return []byte("0." + rep("3", n)) }},
+	{"paren-cond-mix", func(n int) []byte {
+		k := n / 6
+		return []byte(strings.Repeat("(a?", k) + "a" + strings.Repeat(":a)", k))
+	}},
+	{"diagnostics-many-lines", func(n int) []byte { return []byte("[" + rep(")\n", n) + "]") }},
+	{"multibyte-identifiers", func(n int) []byte { return []byte(rep("\u4e2d\u6587+", n) + "a") }},
 }
 
 func timeParse(text []byte, reps int) time.Duration {
